@@ -54,6 +54,67 @@ impl Elem for Rat {
     }
 }
 
+/// Integer element type: everything is exact (only unimodular matrices are asked for their
+/// inverse, because `T::one() / det` is an integer division).
+impl Elem for i64 {
+    fn parse(s: &str) -> i64 {
+        s.parse().expect("i64 literal")
+    }
+    fn small(i: i64) -> i64 {
+        i
+    }
+}
+
+impl Elem for f64 {
+    fn parse(s: &str) -> f64 {
+        s.parse().expect("f64 literal")
+    }
+    fn small(i: i64) -> f64 {
+        i as f64
+    }
+}
+
+impl Elem for f32 {
+    fn parse(s: &str) -> f32 {
+        s.parse().expect("f32 literal")
+    }
+    fn small(i: i64) -> f32 {
+        i as f32
+    }
+}
+
+/// Float element types: never compared with the model value by value; the oracle is the
+/// specification itself (present, and both products with the input within `TOL` of the identity).
+pub trait Approx: Elem
+where
+    for<'a> &'a Self: NumericRef<Self>,
+{
+    const TOL: f64;
+    fn as_f64(&self) -> f64;
+    /// `base · 10^k10 · 2^k2`
+    fn scaled(base: i64, k10: i32, k2: i32) -> Self;
+}
+
+impl Approx for f64 {
+    const TOL: f64 = 1e-9;
+    fn as_f64(&self) -> f64 {
+        *self
+    }
+    fn scaled(base: i64, k10: i32, k2: i32) -> f64 {
+        base as f64 * 10f64.powi(k10) * 2f64.powi(k2)
+    }
+}
+
+impl Approx for f32 {
+    const TOL: f64 = 2e-3;
+    fn as_f64(&self) -> f64 {
+        *self as f64
+    }
+    fn scaled(base: i64, k10: i32, k2: i32) -> f32 {
+        base as f32 * 10f32.powi(k10) * 2f32.powi(k2)
+    }
+}
+
 fn show_vals<T: Display>(v: &[T]) -> String {
     v.iter().map(|x| x.to_string()).collect::<Vec<_>>().join(",")
 }
@@ -438,6 +499,77 @@ where
     }
 }
 
+/// largest deviation of `p` from the `n × n` identity (NaN counts as infinite)
+fn identity_error<T: Approx>(n: usize, p: &[T]) -> f64
+where
+    for<'a> &'a T: NumericRef<T>,
+{
+    if p.len() != n * n {
+        return f64::INFINITY;
+    }
+    let mut worst = 0.0f64;
+    for i in 0..n {
+        for j in 0..n {
+            let e = (p[i * n + j].as_f64() - if i == j { 1.0 } else { 0.0 }).abs();
+            if !(e <= worst) {
+                worst = if e.is_nan() { f64::INFINITY } else { e };
+            }
+        }
+    }
+    worst
+}
+
+fn approx_str<T: Approx>(n: usize, p: &[T], q: &[T]) -> String
+where
+    for<'a> &'a T: NumericRef<T>,
+{
+    let (ep, eq) = (identity_error::<T>(n, p), identity_error::<T>(n, q));
+    if ep <= T::TOL && eq <= T::TOL {
+        "some(approx-id)".to_string()
+    } else {
+        format!("some(off-by {:e},{:e})", ep, eq)
+    }
+}
+
+/// Float cases: presence and (for `*check`) the two products against the identity.
+fn answer_approx<T: Approx>(l: &Logical<T>, op: &str, via: &str) -> String
+where
+    for<'a> &'a T: NumericRef<T>,
+{
+    let res = catch(|| match op {
+        "mdet" => if matrix_det::<T>(via, l).is_some() { "some" } else { "none" }.to_string(),
+        "tdet" => if tensor_det::<T>(via, l).is_some() { "some" } else { "none" }.to_string(),
+        "minv" => if matrix_inv::<T>(via, l).is_some() { "some" } else { "none" }.to_string(),
+        "tinv" => match tensor_inv::<T>(via, l) {
+            Some(t) => format!("some({})", show_shape(&t.shape())),
+            None => "none".to_string(),
+        },
+        "mcheck" => match matrix_inv::<T>(via, l) {
+            Some(inv) => {
+                let a = l.matrix();
+                let p: Vec<T> = (&a * &inv).row_major_iter().collect();
+                let q: Vec<T> = (&inv * &a).row_major_iter().collect();
+                approx_str::<T>(l.rows, &p, &q)
+            }
+            None => "none".to_string(),
+        },
+        "tcheck" => match tensor_inv::<T>(via, l) {
+            Some(inv) => {
+                let a = l.tensor();
+                let p: Vec<T> = (&a * &inv).iter().collect();
+                let q: Vec<T> = (&inv * &a).iter().collect();
+                approx_str::<T>(l.rows, &p, &q)
+            }
+            None => "none".to_string(),
+        },
+        other => format!("bad-op {}", other),
+    });
+    match res {
+        Ok(s) => s,
+        Err(k) => panic_str(k),
+    }
+}
+
 // ---------------------------------------------------------------------------------------------
 // runner
 // ---------------------------------------------------------------------------------------------
@@ -446,6 +578,9 @@ enum Case {
     None,
     Fp(Logical<Fp>),
     Rat(Logical<Rat>),
+    I64(Logical<i64>),
+    F64(Logical<f64>),
+    F32(Logical<f32>),
 }
 
 pub struct Runner {
@@ -470,6 +605,18 @@ impl Runner {
             self.case = match toks[1] {
                 "fp" => Case::Fp(Logical { names, rows, cols, data: ents.iter().map(|s| Fp::parse(s)).collect() }),
                 "rat" => Case::Rat(Logical { names, rows, cols, data: ents.iter().map(|s| Rat::parse(s)).collect() }),
+                "i64" => Case::I64(Logical { names, rows, cols, data: ents.iter().map(|s| <i64 as Elem>::parse(s)).collect() }),
+                "f64" | "f32" => {
+                    // entries are the integer base; the matrix is base · 10^scale10 · 2^scale2
+                    let k10: i32 = opt_arg("scale10", toks).map(|s| s.parse().expect("scale10")).unwrap_or(0);
+                    let k2: i32 = opt_arg("scale2", toks).map(|s| s.parse().expect("scale2")).unwrap_or(0);
+                    let base: Vec<i64> = ents.iter().map(|s| s.parse().expect("integer base")).collect();
+                    if toks[1] == "f64" {
+                        Case::F64(Logical { names, rows, cols, data: base.iter().map(|&b| f64::scaled(b, k10, k2)).collect() })
+                    } else {
+                        Case::F32(Logical { names, rows, cols, data: base.iter().map(|&b| f32::scaled(b, k10, k2)).collect() })
+                    }
+                }
                 _ => return "bad-op".into(),
             };
             return "ok".into();
@@ -479,6 +626,9 @@ impl Runner {
             Case::None => "no-case".into(),
             Case::Fp(l) => answer::<Fp>(l, toks[0], via),
             Case::Rat(l) => answer::<Rat>(l, toks[0], via),
+            Case::I64(l) => answer::<i64>(l, toks[0], via),
+            Case::F64(l) => answer_approx::<f64>(l, toks[0], via),
+            Case::F32(l) => answer_approx::<f32>(l, toks[0], via),
         }
     }
 }
@@ -623,6 +773,25 @@ impl<'g> Emit<'g> {
         }
     }
 
+    /// a square case with extra tokens on the `@` line and an explicit list of questions;
+    /// every question is asked through `reps` different presentations
+    fn custom_case(&mut self, ty: &str, n: usize, ints: &[i128], opts: &str, kind: &str, ops: &[&str], reps: usize) {
+        let (a, b) = self.names();
+        let entries: Vec<String> = ints.iter().map(|x| x.to_string()).collect();
+        let sep = if opts.is_empty() { "" } else { " " };
+        self.g.op(format!("@ {} {}:{},{}:{} {}{}{}", ty, a, n, b, n, entries.join(","), sep, opts));
+        self.g.count(&format!("type.{}", ty));
+        self.g.count(&format!("shape.{}x{}", n, n));
+        self.g.count(&format!("kind.{}", kind));
+        for op in ops {
+            for _ in 0..reps {
+                let via = if op.starts_with('m') { self.matrix_via() } else { self.tensor_via() };
+                self.g.count(&format!("via.{}.{}", &op[..1], via));
+                self.g.op(format!("{} via={}", op, via));
+            }
+        }
+    }
+
     fn int_case(&mut self, ty: &str, rows: usize, cols: usize, ints: &[i128], kind: &str, all_ops: bool) {
         let entries: Vec<String> = ints.iter().map(|x| x.to_string()).collect();
         let rank = rank_i128(rows, cols, ints);
@@ -671,6 +840,120 @@ fn low_rank_fp(g: &mut Gen, n: usize, k: usize) -> Vec<Fp> {
         }
     }
     out
+}
+
+/// strictly diagonally dominant integer matrix: invertible with a small condition number
+fn dominant_int(g: &mut Gen, n: usize) -> Vec<i128> {
+    let mut m = vec![0i128; n * n];
+    for i in 0..n {
+        for j in 0..n {
+            m[i * n + j] = if i == j {
+                let d = (n as i128 + 1).max(4) + g.rng.below(4) as i128;
+                if g.rng.chance(1, 3) { -d } else { d }
+            } else {
+                small_int(g, 1)
+            };
+        }
+    }
+    m
+}
+
+fn float_cases(e: &mut Emit, thorough: bool) {
+    let bases_per = if thorough { 6 } else { 2 };
+    for ty in ["f64", "f32"] {
+        for n in 2..=4usize {
+            // keep det = 10^(n·k)·det(base) and the entries of the inverse inside the type's range
+            let kmax: i32 = if ty == "f64" { 30 } else { (30 / n as i32).min(12) };
+            let ks: Vec<i32> = [0, 1, 2, 3, 4, 5, 6, 7, 8, 9, 10, 12, 14, 16, 18, 20, 24, 27, 30]
+                .iter().cloned().filter(|&k| k <= kmax).collect();
+            for &k in &ks {
+                for sign in [-1i32, 1] {
+                    if k == 0 && sign == 1 {
+                        continue;
+                    }
+                    for b in 0..bases_per {
+                        let ints: Vec<i128> = if n == 2 && b == 0 { vec![2, 1, 1, 3] } else { dominant_int(e.g, n) };
+                        let opts = format!("scale10={}", sign * k);
+                        e.g.count(&format!("float.{}.scale10={}{}", ty, if sign < 0 { "-" } else { "+" }, k));
+                        e.custom_case(ty, n, &ints, &opts, "float_scaled_well_conditioned", &["mcheck", "tcheck"], if b == 0 { 3 } else { 1 });
+                    }
+                }
+            }
+            // exactly singular: a duplicated (or negated, or zero) row / column of small integers,
+            // scaled by a power of two, so every product and partial sum is exact and det is 0.0
+            for round in 0..(if thorough { 40 } else { 10 }) {
+                let mut ints: Vec<i128> = (0..n * n).map(|_| small_int(e.g, 9)).collect();
+                let (r1, mut r2) = (e.g.rng.below(n), e.g.rng.below(n - 1));
+                if r2 >= r1 {
+                    r2 += 1;
+                }
+                match round % 4 {
+                    0 => (0..n).for_each(|j| ints[r2 * n + j] = ints[r1 * n + j]),
+                    1 => (0..n).for_each(|j| ints[r2 * n + j] = -ints[r1 * n + j]),
+                    2 => (0..n).for_each(|i| ints[i * n + r2] = ints[i * n + r1]),
+                    _ => (0..n).for_each(|j| ints[r1 * n + j] = 0),
+                }
+                let k2max = if ty == "f64" { 40 } else { 20 };
+                let k2 = e.g.rng.below(2 * k2max + 1) as i32 - k2max as i32;
+                e.custom_case(ty, n, &ints, &format!("scale2={}", k2), "float_exactly_singular", &["mcheck", "tcheck", "minv", "tinv"], 1);
+            }
+        }
+        // the property's largest sizes, moderately scaled
+        for n in 5..=6usize {
+            for &k in &[-3i32, 3, if ty == "f64" { -9 } else { -4 }] {
+                let ints = dominant_int(e.g, n);
+                e.custom_case(ty, n, &ints, &format!("scale10={}", k), "float_scaled_well_conditioned", &["mcheck", "tcheck"], 1);
+            }
+        }
+    }
+}
+
+/// a random product of elementary integer row operations applied to the identity: det = ±1
+fn unimodular(g: &mut Gen, n: usize) -> Vec<i128> {
+    let mut m = vec![0i128; n * n];
+    for i in 0..n {
+        m[i * n + i] = 1;
+    }
+    if n == 1 {
+        if g.rng.chance(1, 2) {
+            m[0] = -1;
+        }
+        return m;
+    }
+    for _ in 0..(3 * n) {
+        let (r1, mut r2) = (g.rng.below(n), g.rng.below(n - 1));
+        if r2 >= r1 {
+            r2 += 1;
+        }
+        match g.rng.below(4) {
+            0 => (0..n).for_each(|j| m.swap(r1 * n + j, r2 * n + j)),
+            1 => (0..n).for_each(|j| m[r1 * n + j] = -m[r1 * n + j]),
+            _ => {
+                let c = small_int(g, 2);
+                let fits = (0..n).all(|j| (m[r2 * n + j] + c * m[r1 * n + j]).abs() <= 30);
+                if fits {
+                    (0..n).for_each(|j| m[r2 * n + j] += c * m[r1 * n + j]);
+                }
+            }
+        }
+    }
+    m
+}
+
+fn integer_cases(e: &mut Emit, max_n: usize) {
+    for n in 1..=max_n {
+        for round in 0..12 {
+            let ints = unimodular(e.g, n);
+            e.custom_case("i64", n, &ints, "", "i64_unimodular", &["mdet", "tdet", "minv", "tinv", "mcheck", "tcheck"], 1);
+            // general integer matrix: the determinant is exact, the inverse is not asked
+            let ints: Vec<i128> = (0..n * n).map(|_| small_int(e.g, 9)).collect();
+            e.custom_case("i64", n, &ints, "", "i64_general_det", &["mdet", "tdet"], 1);
+            if n >= 2 && round % 3 == 0 {
+                let ints = low_rank_int(e.g, n, n - 1, 3);
+                e.custom_case("i64", n, &ints, "", "i64_singular", &["mdet", "tdet", "minv", "tinv", "mcheck", "tcheck"], 1);
+            }
+        }
+    }
 }
 
 pub fn gen(g: &mut Gen) {
@@ -821,6 +1104,14 @@ pub fn gen(g: &mut Gen) {
             }
         }
     }
+
+    // --- floats: the implementation against the specification itself (never against the model's
+    //     values): a well-conditioned matrix scaled by 10^±k has an inverse, and both products with
+    //     the input are the identity to rounding accuracy; an exactly singular one has none ---
+    float_cases(&mut e, thorough);
+
+    // --- i64: everything is exact; inverses only of unimodular matrices (integer `1 / det`) ---
+    integer_cases(&mut e, max_n);
 
     // --- non-square shapes: everything is absent ---
     let shapes: Vec<(usize, usize)> = {
